@@ -40,6 +40,8 @@ def gen_pair(fggs, rng, mode):
         pre2 = ('<X,Y,Z>_1',) if rng.random() < 0.3 else ()
     elif mode == 'terminal-named-like-pair':
         n1, n2 = ['S', 'X', 'Y'], ['T', 'P', 'Q']
+    elif mode == 'terminal-conflict-behind-nt-collision':
+        n1, n2 = ['S', 'X', 'Y'][:rng.randint(2, 3)], ['T', 'X', 'Q'][:rng.randint(2, 3)]
     else:
         n1, n2 = ['S', 'X', 'Y'][:rng.randint(2, 3)], ['T', 'P', 'Q'][:rng.randint(2, 3)]
     same_names = mode == 'same-nt-names'
@@ -67,7 +69,7 @@ def gen_pair(fggs, rng, mode):
     for _ in range(rng.choice([0, 1, 1, 2])):
         base = rng.choice(skels)
         a_nodes = [n for n in base['nodes'] if n.label == A]
-        kind = rng.choice(['ext-other', 'ext-order', 'slot-other', 'slot-order'])
+        kind = rng.choice(['ext-other', 'ext-order', 'slot-other', 'slot-order', 'slot-extra', 'slot-extra'])
         alt = dict(base, k=f"{base['k']}x{kind}")
         if kind == 'ext-other' and base['arity'] == 1 and len(a_nodes) >= 2:
             alt['ext'] = [a_nodes[1]]
@@ -77,12 +79,20 @@ def gen_pair(fggs, rng, mode):
             alt['slots'] = [(sid, tuple(a_nodes[-1] if n is a_nodes[0] else a_nodes[0] for n in att)) for sid, att in base['slots']]
         elif kind == 'slot-order' and any(len(att) == 2 and att[0] is not att[1] for _, att in base['slots']):
             alt['slots'] = [(sid, tuple(reversed(att))) for sid, att in base['slots']]
+        elif kind == 'slot-extra' and base['slots']:
+            # all of the base's nonterminal edges and one more (a strict superset / subset, depending on which grammar gets which)
+            alt['slots'] = list(base['slots']) + [(f"s{base['k']}e{len(base['slots'])}x", (rng.choice(a_nodes),))]
         else:
             continue
         skels.append(alt)
     shared_t = fggs.EdgeLabel('shared', [A], is_terminal=True)
 
-    def build(names, prefix, tname, pre):
+    nt_arity2 = list(nt_arity)
+    if mode == 'terminal-conflict-behind-nt-collision':
+        # both grammars have a nonterminal X, of different types (harmless, and registered before any terminal)
+        nt_arity2[1] = 2
+
+    def build(names, prefix, tname, pre, nt_arity=nt_arity):
         g = fggs.HRG(fggs.EdgeLabel(names[0], [], is_nonterminal=True))
         nts = {names[0]: fggs.EdgeLabel(names[0], [], is_nonterminal=True)}
         for i, nm in enumerate(names[1:], 1):
@@ -121,7 +131,7 @@ def gen_pair(fggs, rng, mode):
                     rid += 1
         return g
     g1 = build(n1, 'g1', 't', pre1)
-    g2 = build(n2, 'g2', 'u', pre2)
+    g2 = build(n2, 'g2', 'u', pre2, nt_arity2)
     meta = dict(mode=mode, n1=n1, n2=n2, pre=[list(pre1), list(pre2)], variants=[str(s['k']) for s in skels if isinstance(s['k'], str)])
     if mode == 'terminal-named-like-pair':
         # a terminal literally called like a paired nonterminal
@@ -144,7 +154,7 @@ def gen_pair(fggs, rng, mode):
                 lab = fggs.EdgeLabel(nm, [A], is_terminal=True)
                 rhs.add_edge(fggs.Edge(lab, [n], id='tv_g1' if g is g1 else 'tv_g2'))
                 g.add_rule(fggs.HRGRule(g.start, rhs))
-    if mode == 'terminal-conflict':
+    if mode in ('terminal-conflict', 'terminal-conflict-behind-nt-collision'):
         for g, typ in ((g1, [A]), (g2, [A, A])):
             rhs = fggs.Graph()
             ns = [fggs.Node(A, id=f'cc{i}') for i in range(len(typ))]
@@ -205,7 +215,7 @@ def run_case(tier, seed, index, spec=None):
     rng = G.rng_for(seed, 'C17', tier, index)
     viols = []
     obs = dict(conjoin_calls=0, conjoined_rules_checked=0, pairs_considered=0, derivations_compared=0, enumeration_capped=0, terminal_conflicts_expected=0)
-    modes = ['plain', 'plain', 'plain', 'same-nt-names', 'name-clash', 'terminal-named-like-pair', 'terminal-conflict', 'plain', 'name-clash-3', 'name-clash-existing', 'terminal-vs-nonterminal-same-name']
+    modes = ['plain', 'plain', 'plain', 'same-nt-names', 'name-clash', 'terminal-named-like-pair', 'terminal-conflict', 'plain', 'name-clash-3', 'name-clash-existing', 'terminal-vs-nonterminal-same-name', 'terminal-conflict-behind-nt-collision']
     mode = modes[index % len(modes)]
     g1, g2, meta = gen_pair(fggs, rng, mode)
     snap1, snap2 = str(g1), str(g2)
@@ -226,7 +236,7 @@ def run_case(tier, seed, index, spec=None):
         hooks = dict(h.count)
     obs['conjoin_calls'] += 1
     feats = [mode] + sorted({'variant-' + v.split('x', 1)[1] for v in meta['variants']})
-    if mode == 'terminal-conflict':
+    if mode in ('terminal-conflict', 'terminal-conflict-behind-nt-collision'):
         obs['terminal_conflicts_expected'] += 1
         if out['ok']:
             V('terminal-conflict-accepted', 'conjoin_hrgs accepted two grammars with different terminal labels of the same name')
@@ -364,8 +374,8 @@ def finalize(tot, tier, seed):
             inc.append(f'{k} never observed')
     if tot['obs'].get('enumeration_capped', 0) > 0.5 * tot['evaluated']:
         inc.append('derivation enumeration hit its cap in more than half of the cases')
-    for f in ('plain', 'same-nt-names', 'name-clash', 'name-clash-3', 'name-clash-existing', 'terminal-vs-nonterminal-same-name', 'terminal-named-like-pair', 'terminal-conflict',
-              'variant-ext-other', 'variant-ext-order', 'variant-slot-other', 'variant-slot-order'):
+    for f in ('plain', 'same-nt-names', 'name-clash', 'name-clash-3', 'name-clash-existing', 'terminal-vs-nonterminal-same-name', 'terminal-named-like-pair', 'terminal-conflict', 'terminal-conflict-behind-nt-collision',
+              'variant-ext-other', 'variant-ext-order', 'variant-slot-other', 'variant-slot-order', 'variant-slot-extra'):
         if tot['features'].get(f, 0) == 0:
             inc.append(f'class {f} never generated')
     return {}, inc
